@@ -392,6 +392,20 @@ def _probe(case, ds, tf0, model, outc):
     has_cat = "categorical" in o["col_kinds"]
     pnames = P.probe_names(mname, has_cat)
     out, base = P.fwd_probes(mname, model, tf, has_cat)
+    if mname == "TabNet":
+        # the row counts the inner BatchNorm1d of the first GhostBatchNorm1d is called with (Coq: ghost_call_sizes)
+        try:
+            gbn = model.attn_transformers[0].bn
+            sizes = []
+            h = gbn.bn.register_forward_pre_hook(lambda m_, a: sizes.append(int(a[0].shape[0])))
+            try:
+                P.fwd(model, tf)
+            finally:
+                h.remove()
+            o["ghost_sizes"] = sizes
+            o["ghost_vbs"] = int(gbn.virtual_batch_size)
+        except Exception:
+            o["ghost_sizes"] = None
     o["probe_names"] = pnames
     o["probe_K"] = [None if b is None else int(b.shape[1]) for b in base]
     expect = [None if b is None else expected_probe(case, pn, o["col_kinds"], int(b.shape[1]))
@@ -612,6 +626,8 @@ def stats(cases, obss):
         if o.get("empty_shape") is not None:
             d["boundaries"]["scored_batch:0"] = 1
         d["with_missing"] += int(o["has_missing"])
+        if o.get("ghost_sizes"):
+            d["ghost_size_lists_compared"] = d.get("ghost_size_lists_compared", 0) + 1
         for cp in (o.get("probe_complete") or [])[:-1]:
             if cp is not None:
                 d["probes_total"] = d.get("probes_total", 0) + 1
@@ -662,7 +678,10 @@ def coq_term(case, obs, model=None):
     comp = comp[:-1] + [True]        # the final output is always compared exactly
     fps = "[" + "; ".join("None" if m is None else f"Some ({C.cbool(bool(cp))}, {P.cbmat(m)})"
                           for m, cp in zip(obs["probe_fp"], comp)) + "]"
-    return f"model_fp_ok {obs['ncols']} ({coq_model_term(case, obs, model)}) {obs['n']} {rows} {fps}"
+    term = f"model_fp_ok {obs['ncols']} ({coq_model_term(case, obs, model)}) {obs['n']} {rows} {fps}"
+    if model is None and case["model"] == "TabNet" and obs.get("ghost_sizes"):
+        term = f"({term} && ghost_sizes_ok {obs.get('ghost_vbs', 512)} {obs['n']} (Some {P.cnats(obs['ghost_sizes'])}))"
+    return term
 
 
 # ------------------------------------------------------------------ per-run validation of the hypotheses
@@ -830,6 +849,8 @@ def sanity(cases, obss):
                 probs.append(f"{m} with {cls} never scored at 0 training steps")
     if d.get("probes_total", 0) and d.get("probes_incomplete", 0) > 0.05 * d["probes_total"]:
         probs.append(f"{d['probes_incomplete']} of {d['probes_total']} intermediate probes were compared for soundness only")
+    if d.get("ghost_size_lists_compared", 0) == 0:
+        probs.append("the ghost batch norm call sizes were never observed")
     bd = d.get("boundaries", {})
     need = (["num_col:" + k for k in P.NUM_KINDS_MIN_TIED + ["mid_ties", "top_ties", "single_value", "generic"]]
             + ["bucket_encoder_with_min_tied_column", "frame_of_2_rows", "heads==channels", "heads==num_cols",
